@@ -85,7 +85,7 @@ pub open spec fn expand(seqs: Map<Seq<char>, Vec<String>>, names: Seq<&String>, 
 }
 pub open spec fn views(v: Seq<&String>) -> Seq<Seq<char>> { v.map_values(|s: &String| s@) }
 
-//!fn src/app/run.rs get_all_commands rules=R16 props=C04
+//!fn src/app/run.rs get_all_commands rules=R16 props=C04,C05
 fn get_all_commands<'a>(
     cfg: &'a core::Config,
     commands: &'a [&'a String],
@@ -94,9 +94,9 @@ fn get_all_commands<'a>(
 @    ensures
 @        // C04: expanded sequences first, then --commands, each in the order given
 @        res matches Ok(all) ==> (sequences@.len() > 0 ==> cfg.sequences is Some)
-@            && views(all@) == (if sequences@.len() > 0 { expand(cfg.sequences->Some_0@, sequences@, sequences@.len() as int) } else { Seq::empty() }) + views(commands@), // [C04]
+@            && views(all@) == (if sequences@.len() > 0 { expand(cfg.sequences->Some_0@, sequences@, sequences@.len() as int) } else { Seq::empty() }) + views(commands@), // [C04,C05]
 @        // an undefined sequence is an error, never silently skipped
-@        (sequences@.len() > 0 && (cfg.sequences is None || exists|i: int| 0 <= i < sequences@.len() && !cfg.sequences->Some_0@.dom().contains(#[trigger] sequences@[i]@))) ==> res is Err, // [C04]
+@        (sequences@.len() > 0 && (cfg.sequences is None || exists|i: int| 0 <= i < sequences@.len() && !cfg.sequences->Some_0@.dom().contains(#[trigger] sequences@[i]@))) ==> res is Err, // [C04,C05]
 {
     // append provided commands to any expanded sequences provided
     let mut all_commands⟦: Vec<&'a String>⟧ = vec![];
